@@ -386,8 +386,11 @@ def herald_layouts(n):
     lay = [()]
     if n >= 2:
         lay += [((0, 0, 0),), ((1, n - 1, n - 1),), ((1, 0, n - 1),)]
+        lay += [((1, 0, n - 1), (0, n - 1, 0))]               # output modes are the input modes, exchanged
     if n >= 3:
         lay += [((1, n - 1, 0), (0, 0, 1))]
+        lay += [((1, 0, 1), (0, 1, 2), (2, 2, 0))]            # a 3-cycle with three different photon numbers
+        lay += [((0, 2, 2), (1, 0, 0), (2, 1, 1))]            # same modes, declared out of order
     return lay
 
 
